@@ -17,8 +17,10 @@ EXPLANATION = (
     "every call site must meet. graphql_impl and the resolver-exception half of the statement are "
     "listed under 'unverified'.")
 UNVERIFIED = [
-    "Lexer.advance / Lexer.lookahead: assumed contract (raise only GraphQLSyntaxError); the "
-    "object invariant of the linked token chain they need is outside the engine's reach",
+    "Lexer.advance / Lexer.lookahead are verified relative to the invariant of the linked token chain "
+    "(assumed for the current token at calls and for every token read through .next; established by "
+    "Lexer.__init__, kept by lookahead - first iteration peeled so the alias token is self.token is "
+    "exact); for a SchemaCoordinateLexer the override of read_next_token is what runs: not covered",
     "termination of the parser's loops and recursion (no progress measure over the token chain)",
     "graphql_impl parse/validate stages; validate() with all rules and the executor never raising: "
     "only a bounded stand-in over a grammar-driven corpus (props/C01_pipeline.py), not proved",
